@@ -411,3 +411,218 @@ Proof. intros Z (V & L & O & I). unfold spec_segwit_msg, hash_prevouts, hash_iss
   rewrite <- (erase_map (issuance_or_zero pt_ok) idx (tx_in t)), <- (erase_map (issuance_or_zero pt_ok) idx (tx_in t')) by reflexivity.
   rewrite V, L, O, I. reflexivity. Qed.
 End IRRELEVANT2.
+
+(* =========================================== the queries on a fresh cache =========================================== *)
+Section PACK.
+Variable pt_ok : bytes -> bool.
+Variable maxvec : N.
+Variable H : bytes -> bytes.
+Variable Htag : bytes -> bytes.
+Notation impl_msg := (impl_msg pt_ok maxvec H).
+Notation impl_digest := (impl_digest pt_ok maxvec H Htag).
+
+Lemma mapM_init {A B} (f : A -> B) (m : M A) t r : snd (m (init t)) = SOk r -> snd (mapM f m (init t)) = SOk (f r).
+Proof. unfold mapM, bind, ret. destruct (m (init t)) as [s [a|e|]]; cbn; intros E; inversion E; reflexivity. Qed.
+Lemma mapM_init_panic {A B} (f : A -> B) (m : M A) t : snd (m (init t)) = SPanic -> snd (mapM f m (init t)) = SPanic.
+Proof. unfold mapM, bind, ret. destruct (m (init t)) as [s [a|e|]]; cbn; intros E; inversion E; reflexivity. Qed.
+
+(* legacy *)
+Theorem pack_legacy t idx sc ty : (idx < length (tx_in t))%nat -> legacy_single_bug t idx (ecdsa_u32 ty) = false ->
+  exists m, spec_legacy_msg pt_ok true t idx sc (ecdsa_u32 ty) = Some m /\
+            impl_msg t (OLegacy idx sc ty) = SOk m /\ impl_digest t (OLegacy idx sc ty) = SOk (H (H m)) /\
+            spec_legacy_digest pt_ok H true t idx sc (ecdsa_u32 ty) = Some (H (H m)).
+Proof. intros Lt Bug. destruct (nth_error (tx_in t) idx) as [me|] eqn:Nth; [|apply nth_error_None in Nth; lia].
+  destruct (spec_legacy_msg pt_ok true t idx sc (ecdsa_u32 ty)) as [m|] eqn:S.
+  2:{ unfold spec_legacy_msg in S. rewrite Nth, Bug in S. discriminate. }
+  exists m. pose proof (legacy_refines pt_ok maxvec t idx sc ty m S) as R. split; [reflexivity|]. split; [exact R|]. split.
+  - unfold SighashQuery.impl_digest, query, legacy_sighash. apply (mapM_init (fun x => H (H x))). exact R.
+  - unfold spec_legacy_digest. rewrite Nth, Bug, S. reflexivity. Qed.
+Theorem legacy_oob_panics t idx sc ty : (length (tx_in t) <= idx)%nat ->
+  impl_msg t (OLegacy idx sc ty) = SPanic /\ impl_digest t (OLegacy idx sc ty) = SPanic /\ spec_legacy_digest pt_ok H true t idx sc (ecdsa_u32 ty) = None.
+Proof. intros Ge. assert (P : SighashQuery.impl_msg pt_ok maxvec H t (OLegacy idx sc ty) = SPanic).
+  { unfold SighashQuery.impl_msg, preimage, legacy_encode, bind, get_tx, lift, init; cbn [st_tx snd]. unfold legacy_encode_tx.
+    apply Nat.ltb_ge in Ge. now rewrite Ge. }
+  split; [exact P|]. split.
+  - unfold SighashQuery.impl_digest, query, legacy_sighash. apply mapM_init_panic. exact P.
+  - unfold spec_legacy_digest. apply nth_error_None in Ge. now rewrite Ge. Qed.
+(* the SIGHASH_SINGLE out-of-range rule (finding F17): the library hashes the constant, consensus signs the constant *)
+Theorem legacy_single_bug_digests t idx sc ty : (idx < length (tx_in t))%nat -> legacy_single_bug t idx (ecdsa_u32 ty) = true ->
+  impl_msg t (OLegacy idx sc ty) = SOk uint256_one /\ impl_digest t (OLegacy idx sc ty) = SOk (H (H uint256_one)) /\
+  spec_legacy_digest pt_ok H true t idx sc (ecdsa_u32 ty) = Some uint256_one.
+Proof. intros Lt Bug. destruct (nth_error (tx_in t) idx) as [me|] eqn:Nth; [|apply nth_error_None in Nth; lia].
+  assert (P : SighashQuery.impl_msg pt_ok maxvec H t (OLegacy idx sc ty) = SOk uint256_one).
+  { unfold SighashQuery.impl_msg, preimage, legacy_encode, bind, get_tx, lift, init; cbn [st_tx snd]. unfold legacy_encode_tx.
+    apply Nat.ltb_lt in Lt. rewrite Lt. cbn [negb]. rewrite ecdsa_split_eq. unfold legacy_single_bug in Bug. revert Bug.
+    destruct ty; cbv beta iota; eval_closed; cbn [andb]; try discriminate; intros ->; reflexivity. }
+  split; [exact P|]. split.
+  - unfold SighashQuery.impl_digest, query, legacy_sighash. apply (mapM_init (fun x => H (H x))). exact P.
+  - unfold spec_legacy_digest. now rewrite Nth, Bug. Qed.
+
+(* segwit v0 *)
+Theorem pack_segwit t idx sc v ty : (idx < length (tx_in t))%nat ->
+  exists m, spec_segwit_msg pt_ok H t idx sc v (ecdsa_u32 ty) = Some m /\
+            impl_msg t (OSegwit idx sc v ty) = SOk m /\ impl_digest t (OSegwit idx sc v ty) = SOk (H (H m)) /\
+            spec_segwit_digest pt_ok H t idx sc v (ecdsa_u32 ty) = Some (H (H m)).
+Proof. intros Lt. destruct (nth_error (tx_in t) idx) as [me|] eqn:Nth; [|apply nth_error_None in Nth; lia].
+  destruct (spec_segwit_msg pt_ok H t idx sc v (ecdsa_u32 ty)) as [m|] eqn:S.
+  2:{ unfold spec_segwit_msg in S. rewrite Nth in S. discriminate. }
+  exists m. pose proof (Ev_init _ _ _ _ _ _ _ (segwit_refines_ev pt_ok maxvec H t [] idx sc v ty m S)) as R.
+  split; [reflexivity|]. split; [exact R|]. split.
+  - unfold SighashQuery.impl_digest, query, segwit_sighash. apply (mapM_init (fun x => H (H x))). exact R.
+  - unfold spec_segwit_digest. now rewrite S. Qed.
+Theorem segwit_oob_panics t idx sc v ty : (length (tx_in t) <= idx)%nat ->
+  impl_msg t (OSegwit idx sc v ty) = SPanic /\ impl_digest t (OSegwit idx sc v ty) = SPanic /\ spec_segwit_msg pt_ok H t idx sc v (ecdsa_u32 ty) = None.
+Proof. intros Ge. apply nth_error_None in Ge.
+  pose proof (Ev_init _ _ _ _ _ _ _ (segwit_panics pt_ok maxvec H t [] idx sc v ty Ge)) as R. split; [exact R|]. split.
+  - unfold SighashQuery.impl_digest, query, segwit_sighash. apply mapM_init_panic. exact R.
+  - unfold spec_segwit_msg. now rewrite Ge. Qed.
+
+(* taproot *)
+Definition tap_single (ty : schnorr_ty) : bool := schnorr_eqb ty SSingle || schnorr_eqb ty SSingleAcp.
+Lemma taproot_defined t spent idx annex leaf ty g :
+  ty <> SReserved -> length spent = length (tx_in t) -> (idx < length (tx_in t))%nat -> annex_valid annex = true ->
+  (tap_single ty = true -> (idx < length (tx_out t))%nat) ->
+  exists m, spec_taproot_msg pt_ok H t spent idx annex leaf (schnorr_u8 ty) g = Some m.
+Proof. intros NR L Lt A Sg. unfold spec_taproot_msg.
+  destruct (nth_error (tx_in t) idx) as [me|] eqn:Nth; [|apply nth_error_None in Nth; lia].
+  destruct (nth_error spent idx) as [prev|] eqn:Np; [|apply nth_error_None in Np; lia].
+  rewrite L, Nat.eqb_refl, A. cbn [negb].
+  destruct ty; try congruence; eval_closed; cbn [negb]; try (eexists; reflexivity).
+  all: destruct (nth_error (tx_out t) idx) as [o|] eqn:No; [eexists; reflexivity|].
+  all: apply nth_error_None in No; specialize (Sg eq_refl); lia. Qed.
+Theorem pack_taproot t spent idx annex leaf ty g :
+  ty <> SReserved -> length spent = length (tx_in t) -> (idx < length (tx_in t))%nat -> annex_valid annex = true ->
+  (tap_single ty = true -> (idx < length (tx_out t))%nat) -> N.of_nat idx < 4294967296 ->
+  exists m, spec_taproot_msg pt_ok H t spent idx annex leaf (schnorr_u8 ty) g = Some m /\
+            impl_msg t (OTaproot idx (PAll spent) annex leaf ty g) = SOk m /\
+            impl_digest t (OTaproot idx (PAll spent) annex leaf ty g) = SOk (Htag m) /\
+            spec_taproot_digest pt_ok H Htag t spent idx annex leaf (schnorr_u8 ty) g = Some (Htag m).
+Proof. intros NR L Lt A Sg U. destruct (taproot_defined t spent idx annex leaf ty g NR L Lt A Sg) as [m S]. exists m.
+  pose proof (Ev_init _ _ _ _ _ _ _ (taproot_refines_ev pt_ok maxvec H t spent idx annex leaf ty g m S U)) as R.
+  assert (P : SighashQuery.impl_msg pt_ok maxvec H t (OTaproot idx (PAll spent) annex leaf ty g) = SOk m).
+  { unfold SighashQuery.impl_msg, preimage. rewrite (annex_opt_valid _ A). exact R. }
+  split; [exact S|]. split; [exact P|]. split.
+  - unfold SighashQuery.impl_digest, query. rewrite (annex_opt_valid _ A). unfold taproot_sighash.
+    change (bind (lift (SOk annex)) ?k (init t)) with (k annex (init t)). apply mapM_init. exact R.
+  - unfold spec_taproot_digest. now rewrite S. Qed.
+(* the two convenience entry points are taproot_sighash without annex, on the key path resp. on the script path with no code separator *)
+Lemma key_spend_eq t idx pv ty g : impl_digest t (OTapKey idx pv ty g) = impl_digest t (OTaproot idx pv None None ty g).
+Proof. reflexivity. Qed.
+Lemma script_spend_eq t idx pv lh ty g : impl_digest t (OTapScript idx pv lh ty g) = impl_digest t (OTaproot idx pv None (Some (lh, 4294967295)) ty g).
+Proof. reflexivity. Qed.
+(* Prevouts::One for ANYONECANPAY types outside the class of finding F11 *)
+Theorem pack_taproot_one t spent idx o annex leaf ty g :
+  schnorr_acp ty = true -> F11_known ty = false -> length spent = length (tx_in t) -> nth_error spent idx = Some o ->
+  impl_msg t (OTaproot idx (POne idx o) annex leaf ty g) = impl_msg t (OTaproot idx (PAll spent) annex leaf ty g) /\
+  impl_digest t (OTaproot idx (POne idx o) annex leaf ty g) = impl_digest t (OTaproot idx (PAll spent) annex leaf ty g).
+Proof. intros A K L N. unfold SighashQuery.impl_msg, SighashQuery.impl_digest, preimage, query.
+  destruct (annex_opt annex) as [a'| |]; try (split; reflexivity).
+  change (bind (lift (SOk a')) ?k (init t)) with (k a' (init t)). unfold taproot_sighash, mapM, bind.
+  rewrite (acp_one_eq_all pt_ok maxvec H (init t) spent idx o a' leaf ty g A K L N). split; reflexivity. Qed.
+End PACK.
+
+(* =========================================== sensitivity to committed fields (partial) =========================================== *)
+Definition Collision (H : bytes -> bytes) : Prop := exists a b, a <> b /\ H a = H b.
+Section SENSITIVE.
+Variable pt_ok : bytes -> bool.
+Variable H : bytes -> bytes.
+Variable flags : bool.
+Hypothesis Hlen : forall x, length (H x) = 32%nat.
+
+Lemma hash_eq a b : H a = H b -> a = b \/ Collision H.
+Proof. intros E. destruct (bytes_eqb_spec a b) as [->|N]; [now left|]. right. now exists a, b. Qed.
+Lemma dhash_eq a b : H (H a) = H (H b) -> a = b \/ Collision H.
+Proof. intros E. destruct (hash_eq _ _ E) as [E'|C]; [|now right]. now apply hash_eq. Qed.
+Lemma app_eq_len {A} (a b x y : list A) : length a = length b -> a ++ x = b ++ y -> a = b /\ x = y.
+Proof. revert b. induction a as [|h a IH]; intros [|h' b] L E; try discriminate; cbn in *; [auto|].
+  inversion E; subst. destruct (IH b) as [-> ->]; auto. Qed.
+Lemma app_eq_len_r {A} (a b x y : list A) : length x = length y -> a ++ x = b ++ y -> a = b /\ x = y.
+Proof. intros L E. assert (La : length a = length b) by (apply (f_equal (@length A)) in E; rewrite !app_length in E; lia).
+  now apply app_eq_len. Qed.
+Lemma ser_u32_inj a b : a < 4294967296 -> b < 4294967296 -> ser_u32 a = ser_u32 b -> a = b.
+Proof. intros Ha Hb E. unfold ser_u32 in E. rewrite <- (le_val_enc 4 a), <- (le_val_enc 4 b) by (cbn; lia). now rewrite E. Qed.
+Lemma ser_u32_len a : length (ser_u32 a) = 4%nat. Proof. apply le_enc_length. Qed.
+
+(* legacy: the message is the serialization itself; version, lock time and hash type are read off its two ends *)
+Theorem legacy_commits_ends t t' idx idx' sc sc' ht ht' m :
+  spec_legacy_msg pt_ok flags t idx sc ht = Some m -> spec_legacy_msg pt_ok flags t' idx' sc' ht' = Some m ->
+  tx_version t < 4294967296 -> tx_version t' < 4294967296 -> tx_lock t < 4294967296 -> tx_lock t' < 4294967296 -> ht < 4294967296 -> ht' < 4294967296 ->
+  tx_version t = tx_version t' /\ tx_lock t = tx_lock t' /\ ht = ht'.
+Proof. unfold spec_legacy_msg. intros S S' V V' L L' T T'.
+  destruct (nth_error (tx_in t) idx); [|discriminate]. destruct (legacy_single_bug t idx ht); [discriminate|].
+  destruct (nth_error (tx_in t') idx'); [|discriminate]. destruct (legacy_single_bug t' idx' ht'); [discriminate|].
+  apply Some_inj in S. apply Some_inj in S'. rewrite <- S' in S. clear S'.
+  apply app_eq_len in S as [Ev S]; [|now rewrite !ser_u32_len]. rewrite !app_assoc in S.
+  apply app_eq_len_r in S as [S Et]; [|now rewrite !ser_u32_len]. apply app_eq_len_r in S as [_ El]; [|now rewrite !ser_u32_len].
+  auto using ser_u32_inj. Qed.
+
+(* segwit v0, same hash type: version, the three (possibly zeroed) hash fields and the outpoint are fixed-width fields;
+   each hash field, when it is a hash, determines its pre-image up to an explicit collision *)
+Theorem segwit_commits t t' idx idx' sc sc' v v' ht m me me' :
+  spec_segwit_msg pt_ok H t idx sc v ht = Some m -> spec_segwit_msg pt_ok H t' idx' sc' v' ht = Some m ->
+  nth_error (tx_in t) idx = Some me -> nth_error (tx_in t') idx' = Some me' ->
+  tx_version t < 4294967296 -> tx_version t' < 4294967296 ->
+  length (o_txid (in_prev me)) = 32%nat -> length (o_txid (in_prev me')) = 32%nat -> o_vout (in_prev me) < 4294967296 -> o_vout (in_prev me') < 4294967296 ->
+  (tx_version t = tx_version t' /\ in_prev me = in_prev me') /\
+  (anyone_can_pay ht = false -> (concat (map (fun i => ser_outpoint (in_prev i)) (tx_in t)) = concat (map (fun i => ser_outpoint (in_prev i)) (tx_in t')) \/ Collision H) /\
+                                 (concat (map (issuance_or_zero pt_ok) (tx_in t)) = concat (map (issuance_or_zero pt_ok) (tx_in t')) \/ Collision H)) /\
+  (anyone_can_pay ht = false -> hash_single ht = false -> hash_none ht = false ->
+     concat (map (fun i => ser_u32 (in_seq i)) (tx_in t)) = concat (map (fun i => ser_u32 (in_seq i)) (tx_in t')) \/ Collision H).
+Proof. unfold spec_segwit_msg. intros S S' N N' V V' T T' O O'. rewrite N in S. rewrite N' in S'.
+  apply Some_inj in S. apply Some_inj in S'. rewrite <- S' in S. clear S'.
+  assert (Z : length zero256 = 32%nat) by reflexivity.
+  apply app_eq_len in S as [Ev S]; [|now rewrite !ser_u32_len].
+  apply app_eq_len in S as [Ep S]; [|destruct (anyone_can_pay ht); unfold hash_prevouts, sha256d; now rewrite ?Hlen].
+  apply app_eq_len in S as [Es S]; [|destruct (negb (anyone_can_pay ht) && negb (hash_single ht) && negb (hash_none ht)); unfold hash_sequence, sha256d; now rewrite ?Hlen].
+  apply app_eq_len in S as [Ei S]; [|destruct (anyone_can_pay ht); unfold hash_issuance, sha256d; now rewrite ?Hlen].
+  apply app_eq_len in S as [Eo _]; [|unfold ser_outpoint; rewrite !app_length, !ser_u32_len; lia].
+  split; [split; [now apply ser_u32_inj|]|split].
+  - unfold ser_outpoint in Eo. apply app_eq_len in Eo as [E1 E2]; [|lia]. apply ser_u32_inj in E2; auto.
+    destruct (in_prev me), (in_prev me'); cbn in *; congruence.
+  - intros A. rewrite A in Ep, Ei. split.
+    + unfold hash_prevouts, sha256d in Ep. destruct (dhash_eq _ _ Ep) as [E|C]; auto.
+    + unfold hash_issuance, sha256d in Ei. destruct (dhash_eq _ _ Ei) as [E|C]; auto.
+  - intros A Sg Nn. rewrite A, Sg, Nn in Es. cbn [negb andb] in Es. unfold hash_sequence, sha256d in Es. destruct (dhash_eq _ _ Es) as [E|C]; auto.
+Qed.
+
+(* taproot, same hash type and same spend shape: genesis hash, version, lock time are fixed-width fields; without ANYONECANPAY the
+   seven sub-hashes, and for ALL/DEFAULT the outputs hash and the OUTPUT-WITNESS hash, each determine their pre-image up to an
+   explicit collision — in particular taproot ALL commits to the output witnesses *)
+Theorem taproot_commits t t' spent spent' idx idx' annex annex' leaf leaf' ht g g' m :
+  spec_taproot_msg pt_ok H t spent idx annex leaf ht g = Some m -> spec_taproot_msg pt_ok H t' spent' idx' annex' leaf' ht g' = Some m ->
+  length g = 32%nat -> length g' = 32%nat -> tx_version t < 4294967296 -> tx_version t' < 4294967296 -> tx_lock t < 4294967296 -> tx_lock t' < 4294967296 ->
+  (g = g' /\ tx_version t = tx_version t' /\ tx_lock t = tx_lock t') /\
+  (tap_input_acp ht = false ->
+     (map (fun i => n2b (outpoint_flag_byte i)) (tx_in t) = map (fun i => n2b (outpoint_flag_byte i)) (tx_in t') \/ Collision H) /\
+     (concat (map (fun i => ser_outpoint (in_prev i)) (tx_in t)) = concat (map (fun i => ser_outpoint (in_prev i)) (tx_in t')) \/ Collision H) /\
+     (concat (map (fun o => ser_asset pt_ok (out_asset o) ++ ser_value pt_ok (out_value o)) spent) = concat (map (fun o => ser_asset pt_ok (out_asset o) ++ ser_value pt_ok (out_value o)) spent') \/ Collision H) /\
+     (concat (map (fun o => ser_bytes (out_script o)) spent) = concat (map (fun o => ser_bytes (out_script o)) spent') \/ Collision H) /\
+     (concat (map (fun i => ser_u32 (in_seq i)) (tx_in t)) = concat (map (fun i => ser_u32 (in_seq i)) (tx_in t')) \/ Collision H) /\
+     (concat (map (issuance_or_zero pt_ok) (tx_in t)) = concat (map (issuance_or_zero pt_ok) (tx_in t')) \/ Collision H) /\
+     (concat (map issuance_proofs (tx_in t)) = concat (map issuance_proofs (tx_in t')) \/ Collision H) /\
+     (tap_output_type ht = SIGHASH_ALL ->
+        (concat (map (ser_txout pt_ok) (tx_out t)) = concat (map (ser_txout pt_ok) (tx_out t')) \/ Collision H) /\
+        (concat (map output_witness (tx_out t)) = concat (map output_witness (tx_out t')) \/ Collision H))).
+Proof. unfold spec_taproot_msg. intros S S' G G' V V' L L'.
+  destruct (negb (tap_type_valid ht)); [discriminate|].
+  destruct (negb (Nat.eqb (length spent) (length (tx_in t)))); [discriminate|]. destruct (negb (annex_valid annex)); [discriminate|].
+  destruct (negb (Nat.eqb (length spent') (length (tx_in t')))); [discriminate|]. destruct (negb (annex_valid annex')); [discriminate|].
+  destruct (nth_error (tx_in t) idx) as [me|]; [|discriminate]. destruct (nth_error spent idx) as [prev|]; [|discriminate].
+  destruct (nth_error (tx_in t') idx') as [me'|]; [|discriminate]. destruct (nth_error spent' idx') as [prev'|]; [|discriminate].
+  destruct (if tap_output_type ht =? SIGHASH_SINGLE then _ else _) as [so|]; [|discriminate].
+  destruct (if tap_output_type ht =? SIGHASH_SINGLE then _ else _) as [so'|]; [|discriminate].
+  apply Some_inj in S. apply Some_inj in S'. rewrite <- S' in S. clear S'.
+  apply app_eq_len in S as [Eg S]; [|lia]. apply app_eq_len in S as [_ S]; [|lia].
+  apply app_eq_len in S as [_ S]; [|reflexivity].
+  apply app_eq_len in S as [Ev S]; [|now rewrite !ser_u32_len]. apply app_eq_len in S as [El S]; [|now rewrite !ser_u32_len].
+  split; [auto using ser_u32_inj|]. intros A. rewrite A in S. rewrite <- !app_assoc in S.
+  unfold sha_outpoint_flags, sha_prevouts, sha_asset_amounts, sha_scriptpubkeys, sha_sequences, sha_issuances, sha_issuance_rangeproofs in S.
+  apply app_eq_len in S as [E1 S]; [|now rewrite !Hlen]. apply app_eq_len in S as [E2 S]; [|now rewrite !Hlen].
+  apply app_eq_len in S as [E3 S]; [|now rewrite !Hlen]. apply app_eq_len in S as [E4 S]; [|now rewrite !Hlen].
+  apply app_eq_len in S as [E5 S]; [|now rewrite !Hlen]. apply app_eq_len in S as [E6 S]; [|now rewrite !Hlen].
+  apply app_eq_len in S as [E7 S]; [|now rewrite !Hlen].
+  repeat (split; [now apply hash_eq|]). intros OA. rewrite OA in S. cbn [N.eqb SIGHASH_ALL Pos.eqb] in S. rewrite <- !app_assoc in S.
+  unfold sha_outputs, sha_output_witnesses in S.
+  apply app_eq_len in S as [E8 S]; [|now rewrite !Hlen]. apply app_eq_len in S as [E9 S]; [|now rewrite !Hlen].
+  split; now apply hash_eq. Qed.
+End SENSITIVE.
